@@ -63,6 +63,9 @@ def run(ctx, rep):
         r = deref(p.env, p.env.get('_0'))
         ok = False
         why = show(r)
+        # the ordering call may be wrapped (`Some(a.cmp(&b))`) or returned as is (`a.partial_cmp(&b)`)
+        if r and r[0] != 'call':
+            r = next((x for x in subtrees(r) if x[0] == 'call' and x[1].endswith(('::cmp', '::partial_cmp')) and len(x[2]) == 2), r)
         if r and r[0] == 'call':
             args = [deref(p.env, deref(p.env, a)) for a in r[2]]
             ok = all(a[0] == 'call' and a[1] == 'object::Object::as_int' for a in args) and len(args) == 2
